@@ -162,7 +162,7 @@ def index_write(chk, prog, c):
                  detail="unreviewed `unsafe impl IndexWrite<%s> for %s`: Self must be an owning std container and the "
                         "index a std index type (no third-party Index impl may carry a Write)" % (it.get("s"), im["self_s"]),
                  loc="%s:%s" % (im["span"]["f"], im["span"]["l"]))
-    chk.floor("IndexWrite-impls[%s]" % c, n, 11)
+    chk.floor("IndexWrite-impls[%s]" % c, n, {"default": 11, "nodefault": 10, "all": 12}.get(c, 10))
 
 
 def unlock(chk, prog, c):
